@@ -23,7 +23,9 @@ from datetime import datetime, timedelta, timezone
 from harness import tlc, tlaval, pktkit as pk, strict_tlv as st
 from harness.tlc import MachineryError
 import ndn.app_support.security_v2 as sv2
-from ndn.encoding import parse_data, Component
+from ndn.encoding import parse_data, Component, Name
+
+Name_normalize = Name.normalize
 
 UTC = timezone.utc
 NAIVE = -1000
@@ -150,13 +152,13 @@ def issuer_arg(q, rng):
     raise MachineryError('unknown issuer-id form %r' % form)
 
 
-def issue(q, rng, pool, target=True, live=None):
+def issue(q, rng, pool, target=True, live=None, keyname=None):
     """Run the real function. Returns a Built-like object.
     live = (signer object, concrete locator name): issue with this long-lived signer instead of a fresh one."""
     b = pk.Built()
     b.q = q
     b.pub = pool.pub_der(q['subj'])
-    b.keyname = key_name_bytes(q, rng)
+    b.keyname = keyname or key_name_bytes(q, rng)
     if live is not None:
         b.kl = live[1]
         b.rec = pk.Recorder(live[0])
@@ -435,7 +437,8 @@ def record(ctx, q, pool, exp=None):
 # ---------------------------------------------------------------- signer-reuse histories (NdnPacketsCertHist)
 
 SIGNER_KINDS = ['ecdsa', 'rsa', 'ed25519', 'hmac', 'tpm-ecdsa', 'tpm-rsa']
-HIST_FNS = ['self_sign', 'sign_req', 'derive']
+HIST_FNS = ['self_sign', 'sign_req', 'derive', 'new_cert']
+ALL_FNS = '{"self_sign", "sign_req", "derive", "new_cert"}'
 
 
 def loc_shapes(rng, nloc, fixed):
@@ -493,8 +496,23 @@ def run_history(ctx, kind, init, steps, shapes, pool, stage):
     Returns (history record for NdnPacketsCertHistTrace, certificate records for NdnPacketsCertTrace)."""
     from ndn.encoding import make_data, MetaInfo
     names = {i: pk.name_bytes(sh, ctx.rng) for i, sh in shapes.items()}
+    # the subject key: locator #1 is the name of this very key when it has the shape of a key name (the ordinary
+    # path), every other locator differs from the key name (a CA signer pointing at its certificate, ...)
+    keyshape = [{'t': 8, 'l': 3}, {'t': 8, 'l': 3}, {'t': 8, 'l': 8}]
+    keyname = [pk.comp_bytes(keyshape[0], ctx.rng), b'\x08\x03KEY', pk.comp_bytes(keyshape[2], ctx.rng)]
+    if [(c['t'], c['l']) for c in shapes[1]] == [(8, 2), (8, 3), (8, 8)] and ctx.rng.random() < 0.7:
+        keyshape = shapes[1]
+        keyname = names[1] = [names[1][0], b'\x08\x03KEY', names[1][2]]
     live = LiveSigner(kind, names[init], pool, tlc.BUILD)
     cur = init
+
+    def configured():
+        """identifier of the locator the signer object is configured with right now (0 = none of ours)"""
+        try:
+            now = [bytes(c) for c in Name_normalize(live.obj.key_locator_name)]
+        except Exception:  # noqa
+            return 0
+        return next((i for i, nm in names.items() if nm == now), 0)
     ev, certs = [], []
     hist_rep = {'kind': 'history', 'signer': kind, 'init': init, 'steps': [list(x) for x in steps],
                 'shapes': {str(k): v for k, v in shapes.items()}}
@@ -502,16 +520,17 @@ def run_history(ctx, kind, init, steps, shapes, pool, stage):
         if stp[0] == 'SetLocator':
             cur = stp[1]
             live.set_locator(names[cur])
-            ev.append({'a': 'SetLocator', 'l': cur})
+            ev.append({'a': 'SetLocator', 'l': cur, 'after': configured()})
         elif stp[0] == 'SignData':
             make_data([b'\x08\x01d'], MetaInfo(), b'x', signer=live.obj)
-            ev.append({'a': 'SignData'})
+            ev.append({'a': 'SignData', 'after': configured()})
         else:
             fn = stp[1]
-            q = {'fn': fn, 'subj': 'ec256', 'keyname': [{'t': 8, 'l': 3}, {'t': 8, 'l': 3}, {'t': 8, 'l': 8}], 'lit': ['', 'KEY', ''],
+            q = {'fn': fn, 'subj': 'ec256', 'keyname': keyshape, 'lit': ['', 'KEY', ''],
                  'publen': len(pool.pub_der('ec256')), 'issuer': {'t': 8, 'l': 3}, 'idform': 'plain', 'tz2': NAIVE, 'sg': live.sg(shapes[cur]),
                  'clock': {'d': 20000 + len(ev), 's': 3600, 'ms': 5}, 'start': {'d': 19000, 's': 0}, 'dur': 86400, 'tz': NAIVE}
-            b = issue(q, ctx.rng, pool, target=False, live=(live.obj, names[cur]))
+            before = configured()
+            b = issue(q, ctx.rng, pool, target=False, live=(live.obj, names[cur]), keyname=keyname)
             if b.rec.actual is not None and q['sg']['kind'] == 'ecdsa':
                 q['sg']['a'] = b.rec.actual
             if q['sg']['a'] < 0:
@@ -525,7 +544,12 @@ def run_history(ctx, kind, init, steps, shapes, pool, stage):
                     for i, nm in names.items():
                         if body == st.write_tlv([(7, b''.join(nm))]):
                             seen = i
-            ev.append({'a': 'Issue', 'fn': fn, 'kl': seen})
+            after = configured()
+            if after != before:
+                ctx.violation('C16/signer-reuse/%s/%s/issuing-reconfigured-the-signer' % (kind, fn),
+                              '%s changed the key locator configured in the signer it was given (configured #%d, afterwards #%d)'
+                              % (FN_NAME[fn], before, after), hist_rep)
+            ev.append({'a': 'Issue', 'fn': fn, 'kl': seen, 'after': after})
             rec = {'q': q, 'refused': b.exc is not None, 'lay': pk.lay_json(lay or []), 'nb': [], 'na': [], 'signed': []}
             if lay and len(find(lay, 254)) == 1 and len(find(lay, 255)) == 1:
                 rec['nb'] = list(val(b.wire, find(lay, 254)[0]))
@@ -554,17 +578,17 @@ def hist_stage_a(ctx):
     inv = dict(invariants=['TypeOK'], properties=['LocatorAtIssue', 'IssuedStable'])
     n, m = ctx.pick((3, 4), (3, 6))
     cp = os.path.join(tlc.BUILD, 'NdnPacketsCertHist_a.cfg')
-    tlc.write_cfg(cp, constants={'NLoc': n, 'MaxSteps': m, 'DevCache': 'FALSE'}, **inv)
+    tlc.write_cfg(cp, constants={'NLoc': n, 'MaxSteps': m, 'DevCache': 'FALSE', 'Fns': ALL_FNS}, **inv)
     r = tlc.run('NdnPacketsCertHist', cp, workers=2, heavy=False)
     ctx.add_tlc('NdnPacketsCertHist NLoc=%d MaxSteps=%d' % (n, m), r)
     if r.violated:
         ctx.violation('C16/spec/NdnPacketsCertHist/%s' % r.violated, 'TLC: %s violated' % r.violated, {'trace': r.errtrace[:3000]})
     # the property must be able to fail: the "build the KeyLocator once" deviation is refuted by TLC
-    tlc.write_cfg(cp, constants={'NLoc': 2, 'MaxSteps': 3, 'DevCache': 'TRUE'}, **inv)
+    tlc.write_cfg(cp, constants={'NLoc': 2, 'MaxSteps': 3, 'DevCache': 'TRUE', 'Fns': ALL_FNS}, **inv)
     if tlc.run('NdnPacketsCertHist', cp, workers=1, heavy=False).violated != 'LocatorAtIssue':
         raise MachineryError('LocatorAtIssue does not refute the cached-locator deviation')
     for w in ('W_ChangedBetween', 'W_ChangedBeforeFirstUse'):
-        tlc.write_cfg(cp, constants={'NLoc': 2, 'MaxSteps': 3, 'DevCache': 'FALSE'}, invariants=[w])
+        tlc.write_cfg(cp, constants={'NLoc': 2, 'MaxSteps': 3, 'DevCache': 'FALSE', 'Fns': ALL_FNS}, invariants=[w])
         if tlc.run('NdnPacketsCertHist', cp, workers=1, heavy=False).violated != w:
             raise MachineryError('witness %s not reachable' % w)
 
@@ -573,7 +597,8 @@ def hist_stage_b(ctx, pool):
     from harness import graph
     n, m = ctx.pick((2, 3), (2, 4))
     cp = os.path.join(tlc.BUILD, 'NdnPacketsCertHist_g.cfg')
-    tlc.write_cfg(cp, constants={'NLoc': n, 'MaxSteps': m, 'DevCache': 'FALSE'}, invariants=['TypeOK'])
+    tlc.write_cfg(cp, constants={'NLoc': n, 'MaxSteps': m, 'DevCache': 'FALSE',
+                                 'Fns': ctx.pick('{"self_sign", "derive"}', ALL_FNS)}, invariants=['TypeOK'])
     g = graph.dump('NdnPacketsCertHist', cp, workers=2)
     ctx.add_tlc('NdnPacketsCertHist graph NLoc=%d MaxSteps=%d (%d edges)' % (n, m, g.n_edges), g.tlc)
     paths = graph.edge_cover_paths(g, max_len=m)
@@ -584,7 +609,7 @@ def hist_stage_b(ctx, pool):
         if not any(s_[0] == 'Issue' for s_ in steps):
             continue
         # every path on every signer class in thorough; round-robin over the classes in quick
-        kinds = SIGNER_KINDS if not ctx.quick else [SIGNER_KINDS[k % len(SIGNER_KINDS)]]
+        kinds = SIGNER_KINDS if not ctx.quick else [SIGNER_KINDS[k % len(SIGNER_KINDS)], SIGNER_KINDS[(k + 3) % len(SIGNER_KINDS)]]
         for kind in kinds:
             h, cs = run_history(ctx, kind, g.state[init]['loc'], steps, shapes, pool, 'B')
             # the certificates' locators must be the ones in TLC's state after the path
